@@ -460,6 +460,7 @@ class Built:
                 attrs[ev] = acc
         for name, fn in by_prov.get("sm", {}).items():
             attrs[name] = fn
+        attrs["__module__"] = "vmod"
         name = clsname
         kwargs = {"strict_states": True} if d.get("strict") else {}
         with warnings.catch_warnings(record=True) as w:
@@ -629,8 +630,26 @@ class Runner:
         self.cls_of[i] = k
         self.sm.pop(i, None)
         try:
-            sm = b.cls(model, rtc=opt["rtc"], allow_event_without_transition=opt["allow"],
-                       listeners=list(lst.values()) or None, **kw)
+            if step.get("mixin"):
+                from statemachine.mixins import MachineMixin
+                try:   # MachineMixin runs Django's autodiscovery when Django is importable
+                    import django
+                    from django.conf import settings
+                    if not settings.configured:
+                        settings.configure(INSTALLED_APPS=[])
+                        django.setup()
+                except ImportError:
+                    pass
+                methods = dict(b.provider_methods.get("model", {}))
+                methods.update(state_machine_name=f"vmod.{b.clsname}", state_field_name=state_field,
+                               bind_events_as_methods=True)
+                mcls = type("MixinModel", (MachineMixin,), methods)
+                model = mcls()
+                self.user_models[i] = model
+                sm = model.statemachine
+            else:
+                sm = b.cls(model, rtc=opt["rtc"], allow_event_without_transition=opt["allow"],
+                           listeners=list(lst.values()) or None, **kw)
         except Exception as e:  # noqa: BLE001
             self.ret_line(i, ("exc", e))
             return
@@ -657,25 +676,69 @@ class Runner:
             holder = type("Holder", (), {})()
             sm.bind_events_to(holder)
             return getattr(holder, ev)()
+        if api == "mixin_bound":
+            return getattr(sm.model, ev)()
         if api == "activate":
             return sm.activate_initial_state()
         raise ValueError(api)
+
+    def resolve_name(self, sm, ev):
+        """'@dir:<n>' -> the n-th attribute name of the machine that is not a declared event."""
+        if not ev.startswith("@dir:"):
+            return ev
+        declared = {str(e) for e in sm.events}
+        names = [n for n in sorted(dir(sm)) if n not in declared]
+        return names[int(ev[5:]) % len(names)]
+
+    def install_spy(self, sm, name):
+        """If `name` is a plain method of the machine, shadow it on the instance with a recording
+        wrapper for the duration of one call."""
+        import inspect
+        raw = inspect.getattr_static(sm, name, None)
+        if raw is None or not inspect.isfunction(raw):
+            return None
+        calls = []
+        orig = getattr(sm, name)
+
+        def spy(*a, **kw):
+            # only a call made by send() itself (the resolved "event" being invoked) counts; the
+            # library's own internal use of its methods while processing does not
+            fr = sys._getframe(1)
+            if fr.f_code.co_name == "send" and fr.f_code.co_filename.endswith("statemachine.py"):
+                calls.append(name)
+            return orig(*a, **kw)
+        try:
+            sm.__dict__[name] = spy
+        except Exception:  # noqa: BLE001
+            return None
+        return calls
 
     def do_call(self, step):
         i = step["i"]
         sm = self.sm[i]
         k = self.cls_of[i]
         api = step["api"]
+        if "ev" in step:
+            step = dict(step, ev=self.resolve_name(sm, step["ev"]))
         self.rt.cur_slot = i
         line = {"e": "call", "i": i, "api": api, "ev": step.get("ev", ""), "v": step.get("v", ""),
                 "j": step.get("j", 0)}
-        if api in ("send", "event", "events_item", "allowed_item", "bound", "activate"):
+        if api in ("send", "event", "events_item", "allowed_item", "bound", "activate", "mixin_bound"):
             line["gv"] = self.set_gv(step)
             self.rt.budget = step.get("budget", self.scn.get("budget", 0))
         self.rt.emit(line)
         try:
-            if api in ("send", "event", "events_item", "allowed_item", "bound", "activate"):
-                r = self.call_api(sm, step)
+            if api in ("send", "event", "events_item", "allowed_item", "bound", "activate", "mixin_bound"):
+                spied = None
+                if api == "send" and step.get("spy"):
+                    spied = self.install_spy(sm, step["ev"])
+                try:
+                    r = self.call_api(sm, step)
+                finally:
+                    if spied is not None:
+                        sm.__dict__.pop(step["ev"], None)
+                        if spied:
+                            self.rt.notes.append({"kind": "attr_invoked", "name": step["ev"]})
                 if asyncio.iscoroutine(r):
                     raise RuntimeError("coroutine returned to the synchronous driver")
             elif api == "write_setter":
@@ -808,7 +871,7 @@ class Runner:
         if "error" in box:
             raise box["error"]
         return {"lines": self.rt.lines, "warnings": box.get("warnings", []),
-                "orphans": box.get("orphans", 0)}
+                "orphans": box.get("orphans", 0), "notes": self.rt.notes}
 
 
 def spec_classes(scn):
